@@ -214,6 +214,7 @@ func (fe *FnEnc) staticCall(f *ssa.Function, bindings []Val, args []Val, rt type
 		return fe.inline(f, bindings, args, rt)
 	}
 	if v, ok := fe.externModel(key, f, args, rt, pos); ok {
+		fe.afterCall(key[strings.LastIndex(key, ".")+1:], v, pos)
 		return v
 	}
 	// thin contracts (opt inline=closures): helpers that are not handed a context are not looked into
@@ -333,6 +334,37 @@ func (fe *FnEnc) unknownCall(what string, args []Val, rt types.Type) Val {
 		return Val{}
 	}
 	return fe.freshVal("uc", rt)
+}
+
+// afterCall discharges the "after Callee@k" clauses of the function being encoded (its own contract,
+// also when it is inlined): checked at this point of the path, then assumed.
+func (fe *FnEnc) afterCall(callee string, res Val, pos token.Pos) {
+	own := fe.ct
+	if own == nil {
+		own = fe.g.contractFor(fe.fn)
+	}
+	if own == nil || len(own.Afters) == 0 {
+		return
+	}
+	if fe.callCount == nil {
+		fe.callCount = map[string]int{}
+	}
+	fe.callCount[callee]++
+	for _, ac := range own.Afters {
+		if ac.Callee != callee || ac.K != fe.callCount[callee] {
+			continue
+		}
+		env := map[string]Val{}
+		for k, v := range fe.loopEnv() {
+			env[k] = v
+		}
+		env["result"] = res
+		ev := fe.newEval(fe.mem, fe.top.entryMem, env)
+		if fe.curBlock != nil {
+			ev.resolve = fe.pointResolver(fe.curBlock, fe.curIdx, ev)
+		}
+		fe.check("after", fmt.Sprintf("%s@%d.%s", callee, ac.K, ac.Label), ev.evalBool(ac.E), ac.Src, pos)
+	}
 }
 
 // closureArgEffects over-approximates what a callee does by invoking a closure it was handed.
@@ -955,6 +987,7 @@ func (fe *FnEnc) useContractFn(ct *Contract, callee *ssa.Function, args []Val, r
 		}
 		s.assert(implies(fe.guard, t))
 	}
+	fe.afterCall(ct.Name, res, pos)
 	if ct.Trusted {
 		top.havocked["trusted contract: "+key] = true
 	}
